@@ -50,6 +50,7 @@ var imports = map[string][]core.Import{
 	"C23": {{From: "C24", Why: "queued writes travel through the batching queue"}},
 	"C27": {{From: "C25", Clauses: []string{"C25.a/INIT:(*CDCStreamer).CommitHook:pending-group-own-events", "C25.a/INIT:(*CDCStreamer).Reset:pending-group-own-events"}, Why: "the events of a group are the rows changed by its own transaction only if each pending group owns its event list"}},
 	"C31": {{From: "C34", Clauses: []string{"C34.e"}, Why: "shutdown waits on the snapshot gate: it returns only if every holder releases it"}},
+	"C33": {{From: "C09", Clauses: []string{"C09.b"}, Why: "the snapshot manual recovery writes must be the one raft restores next: the catalogue order (term, index, id) decides which snapshot is newest"}},
 	"C34": {{From: "C11", Clauses: []string{"C11.b"}, Why: "the stream wrapper pairs the store's read lock with exactly one release, also when Close is called twice or the underlying close fails"}},
 	"C35": {{From: "C18", Clauses: []string{"C18.b", "C18.c"}, Why: "no byte sequence may change state without passing the permission checks of the inter-node handler"}},
 	"C38": {{From: "C34", Clauses: []string{"C34.a", "C34.b"}, Why: "a linearizable read waits on rsync.ReadyTarget"}},
